@@ -93,6 +93,11 @@ def sweep_streams(tier):
             out.append((('LEN=%d' % L, 'full'), hdr + b'\x00' * (L - 19)))
         else:
             out.append((('LEN=%d' % L, 'hdr'), hdr))
+    # oversize messages whose announced octets really follow (an UPDATE-typed and a KEEPALIVE-typed one), then a KEEPALIVE
+    for L in [4097, 4098, 4101, 4115, 4200, 5000, 8192, 65535] + ([4099, 4100, 4500, 6000, 16384, 32768, 65534] if tier == 'thorough' else []):
+        for typ in (2, 4):
+            body = (b'\x00\x00\x00\x00' + b'\x00' * (L - 23)) if typ == 2 else b'\x00' * (L - 19)
+            out.append((('BIGLEN=%d' % L, 'T%d' % typ, 'full+KA'), MARK + bytes([L >> 8, L & 255, typ]) + body + MARK + b'\x00\x13\x04'))
     for t in range(256):
         out.append((('TYPE=%d' % t,), MARK + b'\x00\x13' + bytes([t])))
         out.append((('TYPE=%d+KA' % t,), MARK + b'\x00\x13' + bytes([t]) + MARK + b'\x00\x13\x04'))
@@ -112,6 +117,8 @@ def _work(args):
             shape = '+'.join(names)
             if sweep:
                 plans = [('whole', [])] + ([('1cut', [17]), ('1cut', [18])] if len(data) >= 19 else [])
+                if len(data) > 4096:
+                    plans += [('1cut', [19]), ('1cut', [20]), ('1cut', [len(data) - 19]), ('1cut', [len(data) - 20]), ('2cut', [10, len(data) - 19])]
             else:
                 plans = plans_for(data, tier, rnd, len(names) - 1)
             ref = None
